@@ -34,6 +34,7 @@ var props = map[string]*propInfo{
 	"C01": {},
 	"C02": {},
 	"C03": {},
+	"C04": {},
 	"C07": {},
 }
 
